@@ -488,11 +488,13 @@ Proof.
   destruct (device_roundtrip d1 d2 d2' S P) as (X & Y & _). auto.
 Qed.
 
-(* slave entries: each one well-formed, not both polling and listening, with a password hash; endpoints pairwise different *)
-Definition slave_entry_ok (e : entry) : bool :=
+(* slave entries: each one well-formed, not both polling and listening, with a password hash, and listening is not asked of a
+   device (live or kept disabled) without the `listen` flag; endpoints pairwise different *)
+Definition slave_entry_ok (reach : entry -> option jv) (e : entry) : bool :=
   is_none (invalid_slave e)
   && negb (truthy (get "poll_interval" e) && truthy (get "listen_enabled" e))
-  && negb (is_null (get "admin_password" e) && is_null (get "admin_password_hash" e)).
+  && negb (is_null (get "admin_password" e) && is_null (get "admin_password_hash" e))
+  && negb (slave_no_listen reach e).
 
 Fixpoint endpoints_distinct (l : list entry) : bool :=
   match l with
@@ -500,54 +502,56 @@ Fixpoint endpoints_distinct (l : list entry) : bool :=
   | e :: r => forallb (fun e' => negb (same_endpoint e' e)) r && endpoints_distinct r
   end.
 
-Lemma same_endpoint_json : forall e e', same_endpoint e (slave_json e') = same_endpoint e e'.
-Proof. intros. reflexivity. Qed.
+Lemma same_endpoint_result : forall reach e e', same_endpoint e (slave_result reach e') = same_endpoint e e'.
+Proof. intros. unfold slave_result. destruct (slave_live reach e'); reflexivity. Qed.
 
-Lemma first_invalid_slave_none : forall doc i, forallb slave_entry_ok doc = true -> first_invalid_slave doc i = None.
+Lemma first_invalid_slave_none : forall reach doc i, forallb (slave_entry_ok reach) doc = true -> first_invalid_slave doc i = None.
 Proof.
   induction doc as [|e r IH]; intros i H; cbn [first_invalid_slave]; [reflexivity|]. cbn [forallb] in H.
   apply andb_prop in H. destruct H as [H1 H2]. unfold slave_entry_ok in H1.
-  apply andb_prop in H1. destruct H1 as [H1 _]. apply andb_prop in H1. destruct H1 as [H1 _].
+  apply andb_prop in H1. destruct H1 as [H1 _]. apply andb_prop in H1. destruct H1 as [H1 _]. apply andb_prop in H1. destruct H1 as [H1 _].
   destruct (invalid_slave e) as [[c f]|]; [discriminate|]. auto.
 Qed.
 
-Lemma add_slaves_accepts : forall doc done i,
-  forallb slave_entry_ok doc = true -> endpoints_distinct doc = true ->
+Lemma add_slaves_accepts : forall reach doc done i,
+  forallb (slave_entry_ok reach) doc = true -> endpoints_distinct doc = true ->
   (forall e e', In e doc -> In e' done -> same_endpoint e e' = false) ->
-  exists devs, add_slaves (map slave_json done) doc i None = (devs, None).
+  exists devs, add_slaves reach (map (slave_result reach) done) doc i None = (devs, None).
 Proof.
   induction doc as [|e r IH]; intros done i OK D H; [eexists; reflexivity|].
   cbn [add_slaves]. cbn [forallb endpoints_distinct] in OK, D.
   apply andb_prop in OK. destruct OK as [OK1 OK2]. apply andb_prop in D. destruct D as [D1 D2].
-  assert (X : existsb (same_endpoint e) (map slave_json done) = false).
-  { destruct (existsb (same_endpoint e) (map slave_json done)) eqn:X; [|reflexivity]. apply existsb_exists in X.
-    destruct X as [x [X1 X2]]. apply in_map_iff in X1. destruct X1 as [e' [<- I']]. rewrite same_endpoint_json in X2.
+  assert (X : existsb (same_endpoint e) (map (slave_result reach) done) = false).
+  { destruct (existsb (same_endpoint e) (map (slave_result reach) done)) eqn:X; [|reflexivity]. apply existsb_exists in X.
+    destruct X as [x [X1 X2]]. apply in_map_iff in X1. destruct X1 as [e' [<- I']]. rewrite same_endpoint_result in X2.
     rewrite (H e e' (or_introl eq_refl) I') in X2. discriminate. }
-  rewrite X. unfold slave_entry_ok in OK1. apply andb_prop in OK1. destruct OK1 as [OK1 P3]. apply andb_prop in OK1.
-  destruct OK1 as [_ P2]. apply negb_true_iff in P2. apply negb_true_iff in P3. rewrite P2, P3.
-  replace (map slave_json done ++ [slave_json e]) with (map slave_json (done ++ [e])) by (now rewrite map_app).
+  rewrite X. unfold slave_entry_ok in OK1. apply andb_prop in OK1. destruct OK1 as [OK1 P4]. apply andb_prop in OK1.
+  destruct OK1 as [OK1 P3]. apply andb_prop in OK1.
+  destruct OK1 as [_ P2]. apply negb_true_iff in P2. apply negb_true_iff in P3. apply negb_true_iff in P4. rewrite P2, P3, P4.
+  replace (map (slave_result reach) done ++ [slave_result reach e]) with (map (slave_result reach) (done ++ [e])) by (now rewrite map_app).
   apply IH; auto. intros x e' Ix I'. apply in_app_or in I'. destruct I' as [I'|[<-|[]]].
   - apply H; auto. now right.
   - rewrite forallb_forall in D1. specialize (D1 x Ix). now apply negb_true_iff in D1.
 Qed.
 
-Theorem slaves_backup_accepted : forall s1 s2,
-  forallb slave_entry_ok (sl_devices s1) = true -> endpoints_distinct (sl_devices s1) = true ->
-  exists s2', put_slave_devices (get_slave_devices s1) s2 = (s2', None).
+Theorem slaves_backup_accepted : forall reach s1 s2,
+  forallb (slave_entry_ok reach) (sl_devices s1) = true -> endpoints_distinct (sl_devices s1) = true ->
+  exists s2', put_slave_devices reach (get_slave_devices s1) s2 = (s2', None).
 Proof.
-  intros s1 s2 OK D. unfold put_slave_devices, get_slave_devices. rewrite (first_invalid_slave_none _ 0 OK).
-  destruct (add_slaves_accepts (sl_devices s1) [] 0 OK D) as [devs A]. { intros ? ? ? []. }
+  intros reach s1 s2 OK D. unfold put_slave_devices, get_slave_devices. rewrite (first_invalid_slave_none reach _ 0 OK).
+  destruct (add_slaves_accepts reach (sl_devices s1) [] 0 OK D) as [devs A]. { intros ? ? ? []. }
   cbn [map] in A. rewrite A. eexists. reflexivity.
 Qed.
 
-Theorem slaves_roundtrip_total : forall s1 s2,
-  (forall e, In e (sl_devices s1) -> slave_json e = e) ->
-  forallb slave_entry_ok (sl_devices s1) = true -> endpoints_distinct (sl_devices s1) = true ->
-  exists s2', put_slave_devices (get_slave_devices s1) s2 = (s2', None)
-              /\ get_slave_devices s2' = get_slave_devices s1 /\ sl_updating s2' = true /\ sl_events s2' = true.
+Theorem slaves_roundtrip_total : forall reach s1 s2,
+  (forall e, In e (sl_devices s1) -> strip_slave (slave_result reach e) = strip_slave e) ->
+  forallb (slave_entry_ok reach) (sl_devices s1) = true -> endpoints_distinct (sl_devices s1) = true ->
+  exists s2', put_slave_devices reach (get_slave_devices s1) s2 = (s2', None)
+              /\ map strip_slave (get_slave_devices s2') = map strip_slave (get_slave_devices s1)
+              /\ sl_updating s2' = true /\ sl_events s2' = true.
 Proof.
-  intros s1 s2 F OK D. destruct (slaves_backup_accepted s1 s2 OK D) as [s2' P]. exists s2'. split; [exact P|].
-  exact (slaves_roundtrip s1 s2 s2' F P).
+  intros reach s1 s2 F OK D. destruct (slaves_backup_accepted reach s1 s2 OK D) as [s2' P]. exists s2'. split; [exact P|].
+  exact (slaves_roundtrip reach s1 s2 s2' F P).
 Qed.
 
 (* peripherals: every dynamic entry names a driver that can be loaded; ids pairwise different (also from the static ones) *)
